@@ -5,6 +5,7 @@
 -/
 import Atomman.C16
 import Proofs.C16_String
+import Proofs.C16_Object
 import Mathlib.Tactic.Ring
 import Mathlib.Tactic.Linarith
 import Mathlib.Tactic.LinearCombination
@@ -808,9 +809,50 @@ theorem identify_iff_pred (rtol atol : K) (htol : 2 * atol + 210 * rtol < 30) (p
     ⟨back .monoclinic, identify_monoclinic_of_pred _ _ _⟩,
     ⟨back .triclinic, fun h => identify_triclinic_of_pred _ _ _ h (hwin h)⟩⟩
 
+/-! ### cells in arbitrary orientation (`Box(vects = V·R)`): `normal_is_reciprocal` above holds for EVERY `V` with
+    `det V ≠ 0`, LAMMPS-oriented or not; spelled out for rigidly rotated cells -/
+
+theorem det_mul (A B : M3 K) : M3.det (M3.mul A B) = M3.det A * M3.det B := by
+  simp only [M3.det, M3.mul, M3.vecMul, V3.dot, V3.cross]; ring
+
+/-- a right-handed cell rotated by any proper rotation is right-handed, and the normal the code returns for it is
+    the unit vector along the reciprocal-lattice vector of the ROTATED cell. -/
+theorem normal_unit_along_reciprocal_rotated (V R : M3 K) (hdet : 0 < M3.det V) (hd : M3.det R = 1) (h k l : ℤ)
+    (hne : ¬(h = 0 ∧ k = 0 ∧ l = 0)) :
+    0 < M3.det (M3.mul V R) ∧
+    ∃ n, planeNormalUnnorm (M3.mul V R) h k l = .ok n ∧
+      ∀ nrm : K, 0 < nrm → nrm * nrm = V3.normSq n →
+        V3.dot (normalise n nrm) (normalise n nrm) = 1 ∧
+        ∃ c : K, 0 < c ∧ normalise n nrm = V3.smul c (recipVector (M3.mul V R) h k l) := by
+  have hpos : 0 < M3.det (M3.mul V R) := by rw [det_mul, hd, mul_one]; exact hdet
+  exact ⟨hpos, normal_unit_along_reciprocal _ hpos h k l hne⟩
+
+/-- a CUBIC cell in any orientation, `vects = a·R` with `R` a proper rotation: the (unnormalised) normal is a
+    positive multiple of `(h,k,l)·R` — the rotated index vector, not the index vector itself. -/
+theorem normal_cubic_rotated (a : K) (ha : 0 < a) (R : M3 K) (ho : RowsOrthonormal R) (hd : M3.det R = 1)
+    (h k l : ℤ) (hne : ¬(h = 0 ∧ k = 0 ∧ l = 0)) :
+    ∃ n c, planeNormalUnnorm (M3.mul ⟨⟨a, 0, 0⟩, ⟨0, a, 0⟩, ⟨0, 0, a⟩⟩ R) h k l = .ok n ∧ 0 < c ∧
+      n = V3.smul c (M3.vecMul ⟨(h : K), (k : K), (l : K)⟩ R) := by
+  have hdetA : M3.det (K := K) ⟨⟨a, 0, 0⟩, ⟨0, a, 0⟩, ⟨0, 0, a⟩⟩ = a * a * a := by
+    simp only [M3.det, V3.dot, V3.cross]; ring
+  have hne0 : M3.det (K := K) ⟨⟨a, 0, 0⟩, ⟨0, a, 0⟩, ⟨0, 0, a⟩⟩ ≠ 0 := by rw [hdetA]; positivity
+  obtain ⟨n, hn, c, hc, he⟩ := normal_is_reciprocal _ hne0 h k l hne
+  refine ⟨M3.vecMul n R, c * a * a, ?_, by positivity, ?_⟩
+  · rw [normal_rotation_covariant _ R ho hd, hn]; rfl
+  · rw [he, hdetA]
+    simp only [recipVector, castV, M3.vecMul, M3.inv, M3.transpose, V3.smul, V3.cross, M3.det, V3.dot, V3.mk.injEq]
+    have : a ≠ 0 := ha.ne'
+    refine ⟨?_, ?_, ?_⟩ <;> field_simp <;> ring
+
 end ordered
 
 /-! ## non-vacuity: concrete instances of the hypotheses -/
+example : RowsOrthonormal (K := ℚ) ⟨⟨2/3, -1/3, 2/3⟩, ⟨2/3, 2/3, -1/3⟩, ⟨-1/3, 2/3, 2/3⟩⟩
+    ∧ M3.det (K := ℚ) ⟨⟨2/3, -1/3, 2/3⟩, ⟨2/3, 2/3, -1/3⟩, ⟨-1/3, 2/3, 2/3⟩⟩ = 1 := by
+  refine ⟨⟨?_, ?_, ?_, ?_, ?_, ?_⟩, ?_⟩ <;> norm_num [M3.det, V3.dot, V3.cross]
+example : RowsOrthonormal (K := ℚ) ⟨⟨0, 1, 0⟩, ⟨1, 0, 0⟩, ⟨0, 0, 1⟩⟩
+    ∧ M3.det (K := ℚ) ⟨⟨0, 1, 0⟩, ⟨1, 0, 0⟩, ⟨0, 0, 1⟩⟩ = -1 := by
+  refine ⟨⟨?_, ?_, ?_, ?_, ?_, ?_⟩, ?_⟩ <;> norm_num [M3.det, V3.dot, V3.cross]
 example : planeInPlane 2 (-3) 4 = .ok (⟨-6, -4, 0⟩, ⟨-6, 0, 3⟩, -1) := by decide
 example : planeInPlane 0 (-3) 4 = .ok (⟨0, 4, 3⟩, ⟨1, 0, 0⟩, -1) := by decide
 example : planeNormalUnnorm (K := ℚ) ⟨⟨1, 0, 0⟩, ⟨0, 1, 0⟩, ⟨0, 0, 1⟩⟩ 2 (-3) 4 = .ok ⟨12, -18, 24⟩ := by
